@@ -2,7 +2,7 @@
    Only pinned statements (`Check name : statement`), `Theorem .. exact lemma` and
    `Print Assumptions`.  Models: Bits/Natural.v, Bits/BitIter.v, Bits/BitWriter.v. *)
 From RS Require Import Lib.Tac Lib.Outcome Lib.Bits Lib.ByteSweep
-  Bits.Natural Bits.BitIter Bits.BitWriter.
+  Bits.Natural Bits.BitIter Bits.BitWriter Bits.ReaderNat.
 Import ListNotations.
 Local Open Scope N_scope.
 
@@ -112,3 +112,27 @@ Theorem C13_window_exact_refuted :
     bi_window sl s e = Ok it /\ bi_remaining it <> bit_range sl s e.
 Proof. exact bi_window_overrun_refuted. Qed.
 Print Assumptions C13_window_exact_refuted.
+
+(* 8. read_natural through the cached-byte reader = the abstract decoder on the bits still
+   to come; position and counter advance by exactly the encoding's length *)
+Theorem C13_reader_natural : forall ty_max bound it, bi_inv it ->
+  match read_nat ty_max bound (bi_remaining it) with
+  | Ok (n, rest) =>
+      exists it', bi_read_natural ty_max bound it = Ok (n, it') /\
+                  bi_remaining it' = rest /\ bi_inv it' /\
+                  bi_total it' = bi_total it + N.of_nat (length (encode_nat n))
+  | Err e => bi_read_natural ty_max bound it = Err e
+  | Panic c => False
+  | OutOfFuel => False
+  end.
+Proof. exact bi_read_natural_spec. Qed.
+Print Assumptions C13_reader_natural.
+
+(* 9. collect_bits packs the bits followed by fewer than 8 zeros and reports the bit count *)
+Theorem C13_collect_bits : forall l,
+  let '(bytes, n) := collect_bits l in
+  bytes_ok bytes /\ n = N.of_nat (length l) /\
+  exists pad, (pad < 8)%nat /\ bits_of_bytes bytes = l ++ repeat false pad /\
+              (length bytes * 8 = length l + pad)%nat.
+Proof. exact collect_bits_spec. Qed.
+Print Assumptions C13_collect_bits.
